@@ -626,7 +626,7 @@ def main(ctx):
 
 
 RULE = ('objects: every generator of c17_gen.py (one per exporting class found by reflection, all variants: charge structures, leg styles, '
-        'pipes, tensors, all predefined sites, MPS finite/infinite/segment, MPO, all lattices, segments of all lattices (first = 0: finite 0..N-1, '
+        'pipes, tensors, all predefined sites, MPS finite/infinite/segment, UniformMPS from_MPS and plain constructor (unit_cell_width != L), MPO, all lattices (HelicalLattice with 1- and 2-site unit cells), segments of all lattices (first = 0: finite 0..N-1, '
         'enlarge=k, defaults; first > 0; last < N-1), segment models / MPS / MPO, all models, terms, errors, configs, container zoo) '
         'x {hdf5 blocks/compact/flat, pickle, deepcopy}; non-trivial when more than one value was compared; distinct = (generator, variant, seed, method). '
         'graphs: random heaps of 1-10 containers (list/tuple/set/dict simple+general keys/instances) with sharing, self references and cycles x '
